@@ -1,1 +1,98 @@
-import PyPred.Model.Optimize
+/-
+C01  optimize() preserves the Boolean function of a propositional predicate.
+
+Property theorems only; helper lemmas are in PyPred/Lemmas.  The statements are
+about `optimizeT`/`optimize` of Model/Optimize.lean and `eval` of Model/Core.lean;
+the tie to /repo is the correspondence run by `./check C01`.
+-/
+import PyPred.Lemmas.OptSound
+import PyPred.Lemmas.Trace
+
+namespace PyPred
+variable {V : Type} [LinearOrder V]
+
+/-- Full statement, for every configuration in which no known-bad arm is present
+in its implemented form: whatever the fuel, whenever the optimizer returns, the
+result agrees with the argument under every interpretation (hence under every
+assignment of the variables) and on every value. -/
+theorem C01_optimize_preserves (cfg : Cfg) (hq : cfg.noImpl) (fnc : Nat → V → Bool) (n : Nat)
+    {p o : Pred V} (h : optimize cfg fnc n p = some o) (I : Interp V) (hA : Agrees I fnc) (x : Val V) :
+    eval I o x = eval I p x := by
+  unfold optimize at h
+  cases hr : optimizeT cfg fnc n p with
+  | none => simp [hr] at h
+  | some r =>
+    obtain ⟨o', t⟩ := r
+    simp [hr] at h; subst h
+    have ht := noImpl_trace_nil hq fnc hr
+    subst ht
+    exact optimizeT_sound I cfg fnc hA n p o' hr x
+
+/-- Partial statement for the code as it is (any configuration, in particular
+`Cfg.allImpl`): if none of the known-bad arms fired on the way, the result
+agrees with the argument. -/
+theorem C01_partial_impl (cfg : Cfg) (fnc : Nat → V → Bool) (n : Nat)
+    {p o : Pred V} (h : optimizeT cfg fnc n p = some (o, [])) (I : Interp V) (hA : Agrees I fnc) (x : Val V) :
+    eval I o x = eval I p x :=
+  optimizeT_sound I cfg fnc hA n p o h x
+
+/-- The propositional reading of the property: an assignment `σ` of the variable
+names is an interpretation, so C01 is the instance `I.var n _ := σ n`. -/
+theorem C01_assignments (cfg : Cfg) (hq : cfg.noImpl) (n : Nat) {p o : Pred V}
+    (h : optimize cfg (fun _ _ => false) n p = some o) (σ : String → Bool) :
+    let I : Interp V := ⟨fun nm _ => σ nm, fun _ _ => false, fun _ _ => false, fun _ => false, fun _ => false,
+      fun _ _ _ => false, fun _ _ _ _ => false⟩
+    ∀ x, eval I o x = eval I p x := by
+  intro I x
+  exact C01_optimize_preserves cfg hq _ n h I (fun _ _ _ => rfl) x
+
+/-! ### Negation witnesses: the implemented arms really break the property
+(these terms are the known-finding witnesses replayed on /repo by the check). -/
+
+section Witnesses
+
+def σI (σ : String → Bool) : Interp Int :=
+  ⟨fun nm _ => σ nm, fun _ _ => false, fun _ _ => false, fun _ => false, fun _ => false,
+   fun _ _ _ => false, fun _ _ _ _ => false⟩
+
+def differsAt (cfg : Cfg) (p : Pred Int) (σ : String → Bool) : Bool :=
+  match optimize cfg (fun _ _ => false) 6 p with
+  | some o => eval (σI σ) o (.sc 0 0) != eval (σI σ) p (.sc 0 0)
+  | none => false
+
+private def vp : Pred Int := .var "p" false
+private def vq : Pred Int := .var "q" false
+private def vr : Pred Int := .var "r" false
+
+/-- K1: `p ^ (~p & q)` is rewritten to `~(p | q)`; they differ at p=1, q=0. -/
+theorem C01_witness_xorNotAnd :
+    differsAt Cfg.allImpl (.xor vp (.and (.not vp) vq)) (fun n => n == "p") = true := by decide
+
+/-- K2: `p ^ (p | q)` is rewritten to `q`; they differ at p=1, q=1. -/
+theorem C01_witness_xorOr :
+    differsAt Cfg.allImpl (.xor vp (.or vp vq)) (fun _ => true) = true := by decide
+
+/-- F1 (repaired in /repo): `p ^ (q & r)` was rewritten to `p & ~r`; they differ at p=1,q=0,r=1. -/
+theorem C01_witness_xorAndUnguarded :
+    differsAt Cfg.allImpl (.xor vp (.and vq vr)) (fun n => n == "p" || n == "r") = true := by decide
+
+/-- … and the corrected right-hand sides do not differ there. -/
+theorem C01_fixed_agrees :
+    differsAt Cfg.allFixed (.xor vp (.and (.not vp) vq)) (fun n => n == "p") = false ∧
+    differsAt Cfg.allFixed (.xor vp (.or vp vq)) (fun _ => true) = false ∧
+    differsAt Cfg.allFixed (.xor vp (.and vq vr)) (fun n => n == "p" || n == "r") = false := by decide
+
+end Witnesses
+
+/-! ### Non-vacuity: the hypotheses are met by terms on which rules really fire. -/
+
+example : Cfg.allFixed.noImpl := by intro q; simp [Cfg.allFixed]
+example : Cfg.allOff.noImpl := by intro q; simp [Cfg.allOff]
+
+/-- `(p & ~p) | q` optimises (to `q`) without any quirk, so `C01_partial_impl`
+applies to it under the implemented configuration. -/
+example : (optimizeT Cfg.allImpl (fun _ _ => false) 6
+    (.or (.and (.var "p" false) (.not (.var "p" false))) (.var "q" false) : Pred Int)).map Prod.snd = some [] := by
+  decide
+
+end PyPred
